@@ -9,6 +9,8 @@ import re
 
 from .. import regexlang as rx
 from ..astutil import call_attr, calls_in, guard_facts, names_in, unparse, walk_local
+from ..cfg import CFG
+from ..dataflow import resolved_text
 from ..report import Finding, Report
 from ..rx_extract import class_regex
 from ..srcindex import AnalysisError, Index, raw_funcs
@@ -97,7 +99,24 @@ def check_bytes(idx: Index, rep: Report) -> dict[int, str]:
     if len(maps) != 1:
         raise AnalysisError(f"{bc.fq}: escape_str_mapping not found")
     mapping = {k.value: v.value for k, v in zip(maps[0].value.keys, maps[0].value.values)}  # type: ignore[union-attr]
-    hex_ok = "int(hex_contents, 16)" in unparse(bc.node) and "all((c in hexdigits" in unparse(bc.node)
+    # the hex decoder: int(<text>[<bs> + lo:<bs> + hi], base) where <bs> is the index of the backslash
+    hexdec = None
+    bcfg = CFG(bc.node)
+    for c in calls_in(bc.node):
+        if unparse(c.func) == "int" and len(c.args) == 2 and isinstance(c.args[1], ast.Constant):
+            e = ast.parse(resolved_text(bcfg, c.args[0]), mode="eval").body
+            sl = e.slice if isinstance(e, ast.Subscript) and isinstance(e.slice, ast.Slice) else None
+            lo, hi = (sl.lower, sl.upper) if sl is not None else (None, None)
+            ok = (
+                isinstance(lo, ast.BinOp) and isinstance(hi, ast.BinOp) and isinstance(lo.op, ast.Add) and isinstance(hi.op, ast.Add)
+                and isinstance(lo.right, ast.Constant) and isinstance(hi.right, ast.Constant)
+                and unparse(lo.left) == unparse(hi.left) and ".find('\\\\'" in unparse(lo.left)
+            )
+            if not ok:
+                raise AnalysisError(f"{bc.fq}: the digits handed to {unparse(c)} were not resolved to a slice after the backslash")
+            hexdec = (lo.right.value, hi.right.value, c.args[1].value)  # type: ignore[union-attr]
+    if hexdec is None:
+        raise AnalysisError(f"{bc.fq}: no int(<digits>, <base>) decoder of hex escapes found")
     bad: dict[str, list[int]] = {}
     for b, form in forms.items():
         if form == "raw":
@@ -111,7 +130,10 @@ def check_bytes(idx: Index, rep: Report) -> dict[int, str]:
             if fmt not in ("f'\\\\{byte:02X}'", "f'\\\\{byte:02x}'"):
                 raise AnalysisError(f"hex escape format {fmt} not recognised")
             text = "\\" + f"{b:02X}"
-            decoded = bytes([int(text[1:], 16)]) if hex_ok else None
+            try:
+                decoded = bytes([int(text[hexdec[0] : hexdec[1]], hexdec[2])])
+            except ValueError:
+                decoded = None
         word = [ord('"')] + [ord(c) if ord(c) < 128 else rx.NA_OTHER for c in text] + [ord('"')]
         S = nfa.init()
         for a in word:
